@@ -9,7 +9,7 @@
    position relative to the 2^31 / 2^32 / 2^63 / 2^64 wrap points is covered); g is the protocol's GenerateRequestID
    (GenU32 bolt/boltv2, GenS32 tars, GenU64 dubbo/dubbothrift).  Theorems quantify over all g, c0 and ALL histories. *)
 From Coq Require Import List NArith Bool.
-From MV Require Import Model.XConn Proofs.XConn Model.XAlloc Proofs.XAlloc Gen.XConnSrc.
+From MV Require Import Model.XConn Proofs.XConn Model.XAlloc Proofs.XAlloc Model.XReply Proofs.XReply Gen.XConnSrc.
 From MV Require Model.Pool Gen.PoolSrc Proofs.Pool.
 Import ListNotations.
 Open Scope N_scope.
@@ -124,6 +124,35 @@ Theorem c02_pingpong_fifo : forall k ops, Model.Pool.k_sw k = Gen.PoolSrc.pool_s
     Model.Pool.live p s1 = true -> Model.Pool.live p s2 = true -> Model.Pool.scli p s1 = Model.Pool.scli p s2 -> s1 = s2.
 Proof. exact (fun k ops H => Proofs.Pool.inv_excl _ _ (Proofs.Pool.reachable_inv k ops H)). Qed.
 Print Assumptions c02_pingpong_fifo.
+
+(* End-to-end id restore for EVERY kind of reply the server stream can write (Model/XReply.v).  The request frame is one
+   object shared with the upstream client stream(s), which overwrite its id field with their upstream ids (any number of
+   forwards: retries).  `xsrc_restamp` (where the server stream stamps its own id on what it writes) and `xsrc_hijack_<proto>`
+   (the id the codec's Hijack puts in) are READ FROM THE SOURCE.  For every downstream id d, every list of upstream ids,
+   every reply kind (upstream response, hijack/exception reply before or after the forwards, heartbeat ack, one-way) and
+   every codec: whatever is written downstream carries d; nothing is written exactly for one-way requests and for a codec
+   without hijack. *)
+Theorem c02_reply_id_every_kind : forall hj d us k,
+  (forall id, wire_id xsrc_restamp hj (rrun d us) k = Some id -> id = d) /\
+  (wire_id xsrc_restamp hj (rrun d us) k = None <-> (k = KOneway \/ (k = KHijack /\ hj = HjNone))).
+Proof. exact (fun hj d us k => conj (reply_id_restored hj d us k) (reply_written hj d us k)). Qed.
+Print Assumptions c02_reply_id_every_kind.
+
+(* stamping only the frames that did not come out of Hijack is refuted: a hijack reply built after the forward carries the
+   upstream id (the request frame's id field was overwritten by the client stream) *)
+Definition c02_reply_id_nonhijack_statement : Prop :=
+  forall hj d us k id, wire_id RestampNonHijack hj (rrun d us) k = Some id -> id = d.
+Theorem c02_reply_id_nonhijack_refuted : ~ c02_reply_id_nonhijack_statement.
+Proof.
+  intros H. destruct reply_id_nonhijack_bad as [d [u [Hne Hw]]]. apply Hne. symmetry. exact (H HjCopy d [u] KHijack u Hw).
+Qed.
+Print Assumptions c02_reply_id_nonhijack_refuted.
+
+Example c02_reply_example :
+  map (wire_id xsrc_restamp xsrc_hijack_dubbo (rrun 5 [4294967296; 77])) [KUpstream 77; KHijack; KHeartbeat; KOneway] =
+    [Some 5; Some 5; Some 5; None] /\
+  wire_id xsrc_restamp xsrc_hijack_bolt (rrun 5 [9]) KHijack = Some 5 /\ wire_id xsrc_restamp xsrc_hijack_tars (rrun 5 [9]) KHijack = None.
+Proof. vm_compute. repeat split; reflexivity. Qed.
 
 (* ---- non-vacuity ------------------------------------------------------------------------------------------ *)
 (* bolt ids, counter two below 2^32: three streams allocated across the wrap (ids 2^32-1, 0, 1), answered in the order
